@@ -123,31 +123,31 @@ end
 
 /-! ## name-valid trees are valid, `]`-free, reserved-free DOM nodes -/
 
-def tmplAttrs (t : Bool) : List (Str × Str) := if t then [("jr:template".toList, [])] else []
+def ntTmplAttrs (t : Bool) : List (Str × Str) := if t then [("jr:template".toList, [])] else []
 
-theorem ntNode_eq (n : Str) (t : Bool) (ks : List NT) : ntNode (.node n t ks) = .elem n (tmplAttrs t) (ntNodes ks) := by
-  simp only [ntNode, tmplAttrs]
+theorem ntNode_eq (n : Str) (t : Bool) (ks : List NT) : ntNode (.node n t ks) = .elem n (ntTmplAttrs t) (ntNodes ks) := by
+  simp only [ntNode, ntTmplAttrs]
 
-theorem tmplAttrs_scope (t : Bool) : (tmplAttrs t).filterMap pyDeclared = [] := by
+theorem ntTmplAttrs_scope (t : Bool) : (ntTmplAttrs t).filterMap pyDeclared = [] := by
   cases t <;> decide
 
-theorem tmplAttrs_valid (R : List Str) (t : Bool) (hjr : R.contains "jr".toList = true) :
-    (tmplAttrs t).all (attrValid R) = true := by
+theorem ntTmplAttrs_valid (R : List Str) (t : Bool) (hjr : R.contains "jr".toList = true) :
+    (ntTmplAttrs t).all (attrValid R) = true := by
   cases t
   · rfl
-  · simp only [tmplAttrs, if_true, List.all_cons, List.all_nil, Bool.and_true]
+  · simp only [ntTmplAttrs, if_true, List.all_cons, List.all_nil, Bool.and_true]
     exact attrValid_intro R _ _ (pyDeclOk_of_not_decl _ _ (by decide))
       (nameValid_prefixed R _ "jr".toList (by decide) (by decide) hjr) rfl
 
 mutual
 theorem valid_ntNode (R : List Str) (hjr : R.contains "jr".toList = true) :
-    ∀ (t : NT), ntAll (nameValid R) t = true → validDoc R (ntNode t) = true
+    ∀ (t : NT), ntAll (fun x => nameValid R x && elemPrefixOk x) t = true → validDoc R (ntNode t) = true
   | .node n t ks, h => by
-    rw [ntAll_node, Bool.and_eq_true] at h
+    rw [ntAll_node, Bool.and_eq_true, Bool.and_eq_true] at h
     rw [ntNode_eq]
-    exact validDoc_elem0 (tmplAttrs_scope t) (tmplAttrs_valid R t hjr) h.1 (valid_ntNodes R hjr ks h.2)
+    exact validDoc_elem0 (ntTmplAttrs_scope t) (ntTmplAttrs_valid R t hjr) h.1.1 (valid_ntNodes R hjr ks h.2) h.1.2
 theorem valid_ntNodes (R : List Str) (hjr : R.contains "jr".toList = true) :
-    ∀ (ts : List NT), ntAllL (nameValid R) ts = true → validKids R (ntNodes ts) = true
+    ∀ (ts : List NT), ntAllL (fun x => nameValid R x && elemPrefixOk x) ts = true → validKids R (ntNodes ts) = true
   | [], _ => by simp [ntNodes, validKids]
   | k :: ks, h => by
     rw [ntAllL_cons, Bool.and_eq_true] at h
@@ -198,9 +198,9 @@ end
     from the element tree (`instKids false items`: nodes, repeat templates with `jr:template=""`)
     are accepted by `validate_xml_document` in the scope below the root — the hypothesis on the part
     `rk` becomes a condition on the *names* of the element tree (each is a name for pyxform's regex
-    whose prefix, if any, is declared) plus `jr` being in scope, which it always is. -/
+    whose prefix, if any, is declared and is not `xmlns`) plus `jr` being in scope, which it always is. -/
 theorem instance_children_valid (f : Fields) (items : List Item)
-    (hnames : ∀ x ∈ allNamesL items, nameValid (pyR f) x = true) :
+    (hnames : ∀ x ∈ allNamesL items, (nameValid (pyR f) x && elemPrefixOk x) = true) :
     validKids (pyR f) (ntNodes (instKids false items)) = true := by
   have hjr : (pyR f).contains "jr".toList = true :=
     contains_of_right _ _ _ (pyScope_static f _ (by decide +kernel) (by decide +kernel))
@@ -218,7 +218,7 @@ theorem instance_children_side (items : List Item)
     `Form` model, the document is accepted when the header is valid, the names of the element tree are
     valid names, and the remaining parts (itext, binds/secondary instances, body) are valid. -/
 theorem validator_complete_form (f : Fields) (items : List Item) (itext : Option (List Node)) (rest bk : List Node)
-    (H : HeaderValid f) (hnames : ∀ x ∈ allNamesL items, nameValid (pyR f) x = true)
+    (H : HeaderValid f) (hnames : ∀ x ∈ allNamesL items, (nameValid (pyR f) x && elemPrefixOk x) = true)
     (hitext : ∀ ks, itext = some ks → validKids (pyS f) ks = true)
     (hrest : validKids (pyS f) rest = true) (hbk : validKids (pyS f) bk = true) :
     validDoc [] (assemble f itext (ntNodes (instKids false items)) rest bk) = true :=
